@@ -85,6 +85,10 @@ enum Obs {
     Sup(u8, u32), // supervisor saw event kind (0 started 1 terminated 2 failed) of child key
     /// a stop hook found its own mailbox still open to new messages (never expected)
     Open(u8),
+    /// `Mailbox::stop()` called from inside a stop hook (the actor is already stopping: the stop token was
+    /// consumed or a handler / `post_start` failed) returned `true` (never expected: at most one `stop()`
+    /// per actor life may report that it requested the stop, and none once the stop phase has begun)
+    Granted(u8),
 }
 
 impl Obs {
@@ -95,6 +99,7 @@ impl Obs {
             Obs::He(m, ok) => format!("e{m}{}", if ok { '+' } else { '-' }),
             Obs::Sup(k, c) => format!("S{c}.{k}"),
             Obs::Open(h) => format!("open{h}"),
+            Obs::Granted(h) => format!("stopgranted{h}"),
         }
     }
 }
@@ -200,6 +205,11 @@ impl Actor for TestActor {
         if !m.is_closed() {
             self.log.push(self.id, Obs::Open(2));
         }
+        // a stop request issued while the actor is already in its stop phase (slow `pre_stop`, or `finish`
+        // after a failure, receiver still alive) must report `false`; on the real code this is a no-op
+        if m.stop() {
+            self.log.push(self.id, Obs::Granted(2));
+        }
         self.log.push(self.id, Obs::Hook(2, self.hooks[2]));
         if self.hooks[2] { Ok(()) } else { Err(3) }
     }
@@ -207,6 +217,9 @@ impl Actor for TestActor {
     async fn post_stop(&self, m: &Mailbox<Self>, _s: &mut u32) -> Result<(), u32> {
         if !m.is_closed() {
             self.log.push(self.id, Obs::Open(3));
+        }
+        if m.stop() {
+            self.log.push(self.id, Obs::Granted(3));
         }
         self.log.push(self.id, Obs::Hook(3, self.hooks[3]));
         if self.hooks[3] { Ok(()) } else { Err(4) }
@@ -453,6 +466,8 @@ struct Det {
     sends: Vec<(u32, Option<u32>, bool)>,
     /// names seen by `lookup` lines: (name, found, seq at the time)
     stops_requested: BTreeSet<u32>,
+    /// actors for which some `stop()` of the harness returned `true`
+    stops_granted: BTreeSet<u32>,
     quiesce_failed: bool,
     /// group -> membership id -> actor (as joined by the harness, minus explicit leaves)
     gmembers: BTreeMap<u32, BTreeMap<u64, u32>>,
@@ -494,6 +509,7 @@ impl Det {
             calls: BTreeMap::new(),
             sends: vec![],
             stops_requested: BTreeSet::new(),
+            stops_granted: BTreeSet::new(),
             quiesce_failed: false,
             gmembers: BTreeMap::new(),
             mon: vec![],
@@ -760,6 +776,9 @@ impl Det {
                     _ => return "nomailbox".into(),
                 };
                 self.stops_requested.insert(a);
+                if r && !self.stops_granted.insert(a) {
+                    self.mon.push(("C19:stop-granted-twice".to_string(), format!("actor {a}: a second stop() returned true")));
+                }
                 r.to_string()
             }
             ["drop", a] => {
@@ -1167,7 +1186,14 @@ fn finish_det(d: &mut Det, ex: &mut Exec) {
         if matches!(s.slot, Slot::Sup { .. }) {
             continue;
         }
-        let log = d.log.of(*a);
+        let mut log = d.log.of(*a);
+        if log.iter().any(|o| matches!(o, Obs::Granted(_))) {
+            ex.fail(
+                "C19:stop-granted-while-stopping",
+                format!("actor {a}: stop() inside a stop hook returned true: {}", log.iter().map(Obs::show).collect::<Vec<_>>().join(",")),
+            );
+            log.retain(|o| !matches!(o, Obs::Granted(_)));
+        }
         match life_run(&log) {
             None => ex.fail("C19:lifecycle-order", format!("actor {a}: {}", log.iter().map(Obs::show).collect::<Vec<_>>().join(","))),
             Some(l) => {
@@ -2219,6 +2245,10 @@ fn judge(w: &[&str]) -> (String, Option<(&'static str, String)>) {
         if ok { ("accept".to_string(), None) } else { (format!("reject {why}"), Some((sig, detail))) }
     };
     match w {
+        ["life", _, toks @ ..] if toks.iter().any(|t| t.starts_with("stopgranted")) => {
+            // a stop() issued inside a stop hook reported that it requested the stop
+            verdict(false, "lifecycle", "C19:stop-granted-while-stopping", w.join(" "))
+        }
         ["life", _, toks @ ..] if toks.iter().any(|t| t.starts_with("open")) => {
             // a stop hook saw its own mailbox open
             verdict(false, "lifecycle", "C19:conc-lifecycle", w.join(" "))
